@@ -130,6 +130,7 @@ func (o c8op) String() string {
 
 type c8model struct {
 	lineage  int
+	id       int // table id for handles that come from a get (directly or by re-weighting one)
 	fromGet  bool
 	known    bool
 	expected tableView
@@ -139,7 +140,8 @@ type c8state struct {
 	handles []codon.Table
 	model   []c8model
 	nextLin int
-	leakTag bool // some reweight was applied to a lineage that starts at a get
+	// ids whose default storage was re-weighted through a handle obtained from get (the recorded leak)
+	reweighted map[int]bool
 }
 
 func pristineView(id int) tableView {
@@ -170,18 +172,14 @@ func viewEq(a, b tableView) bool { return a.weights() == b.weights() && a.letter
 // judged; failures are appended.
 func c8apply(st *c8state, o c8op, check bool, hist string, r *mc.Recorder) (ok bool) {
 	ok = true
-	tags := func() []string {
-		t := []string{"history"}
-		if st.leakTag {
-			t = append(t, "reweight-on-get-lineage")
-		}
-		return t
-	}
-	fail := func(clause, exp, got string) {
+	fail := func(clause string, tags []string, exp, got string) {
 		ok = false
 		if check {
-			r.Fail(mc.Failure{Clause: clause, Case: hist, Tags: tags(), Expected: exp, Got: got})
+			r.Fail(mc.Failure{Clause: clause, Case: hist, Tags: append([]string{"history"}, tags...), Expected: exp, Got: got})
 		}
+	}
+	if st.reweighted == nil {
+		st.reweighted = map[int]bool{}
 	}
 	var res codon.Table
 	var resModel c8model
@@ -196,7 +194,7 @@ func c8apply(st *c8state, o c8op, check bool, hist string, r *mc.Recorder) (ok b
 	switch o.kind {
 	case 0:
 		perr = catch(func() { res = codon.GetCodonTable(c8ids[o.a]) })
-		resModel = c8model{lineage: st.nextLin, fromGet: true, known: true, expected: pristineView(c8ids[o.a])}
+		resModel = c8model{lineage: st.nextLin, id: c8ids[o.a], fromGet: true, known: true, expected: pristineView(c8ids[o.a])}
 		st.nextLin++
 	case 1:
 		perr = catch(func() { res = st.handles[o.a].OptimizeTable(c8seqs[o.s]) })
@@ -207,7 +205,7 @@ func c8apply(st *c8state, o c8op, check bool, hist string, r *mc.Recorder) (ok b
 		}
 		lin := st.model[o.a].lineage
 		if st.model[o.a].fromGet {
-			st.leakTag = true
+			st.reweighted[st.model[o.a].id] = true
 		}
 		// the API documents that re-weighting mutates its receiver: what the receiver and
 		// the other handles of its lineage hold afterwards is not specified
@@ -216,7 +214,7 @@ func c8apply(st *c8state, o c8op, check bool, hist string, r *mc.Recorder) (ok b
 				st.model[i].known = false
 			}
 		}
-		resModel = c8model{lineage: lin, fromGet: st.model[o.a].fromGet, known: true, expected: exp}
+		resModel = c8model{lineage: lin, id: st.model[o.a].id, fromGet: st.model[o.a].fromGet, known: true, expected: exp}
 	case 2:
 		perr = catch(func() { res = codon.AddCodonTable(st.handles[o.a], st.handles[o.b]) })
 		exp := tableView{w: map[string]int{}, letter: argA.letter}
@@ -245,7 +243,7 @@ func c8apply(st *c8state, o c8op, check bool, hist string, r *mc.Recorder) (ok b
 		st.nextLin++
 	}
 	if perr != "" {
-		fail("no-panic", "a table", perr)
+		fail("no-panic", nil, "a table", perr)
 		return
 	}
 	got := viewOf(res)
@@ -255,17 +253,17 @@ func c8apply(st *c8state, o c8op, check bool, hist string, r *mc.Recorder) (ok b
 		// judged below by the fresh-default clause
 	case 1, 2, 4:
 		if !viewEq(got, resModel.expected) {
-			fail([]string{"", "result-reweight", "result-add", "", "result-json"}[o.kind], resModel.expected.weights(), got.diff(resModel.expected))
+			fail([]string{"", "result-reweight", "result-add", "", "result-json"}[o.kind], nil, resModel.expected.weights(), got.diff(resModel.expected))
 		}
 	case 3:
 		if msg := compromiseCheck(argA, argB, got, 0.1); msg != "" {
-			fail("result-compromise", "mean of shares / cut-off rule", msg)
+			fail("result-compromise", nil, "mean of shares / cut-off rule", msg)
 		}
 		resModel.expected, resModel.known = got, true
 	}
 	if o.kind == 0 {
 		if !viewEq(got, resModel.expected) {
-			fail("fresh-default-pristine", "NCBI assignments, every weight 1", got.diff(resModel.expected))
+			fail("fresh-default-pristine", leakTags(st, c8ids[o.a]), "NCBI assignments, every weight 1", got.diff(resModel.expected))
 			// carry on with what was observed so that the same leak is not reported again as isolation
 			resModel.expected = got
 		}
@@ -280,7 +278,11 @@ func c8apply(st *c8state, o c8op, check bool, hist string, r *mc.Recorder) (ok b
 			continue
 		}
 		if v := viewOf(st.handles[i]); !viewEq(v, st.model[i].expected) {
-			fail("isolation-other-table-changed", fmt.Sprintf("h%d unchanged", i), fmt.Sprintf("h%d: %s", i, v.diff(st.model[i].expected)))
+			var tg []string
+			if st.model[i].fromGet {
+				tg = leakTags(st, st.model[i].id)
+			}
+			fail("isolation-other-table-changed", tg, fmt.Sprintf("h%d unchanged", i), fmt.Sprintf("h%d: %s", i, v.diff(st.model[i].expected)))
 			st.model[i].expected = v // report each change once
 		}
 	}
@@ -288,14 +290,23 @@ func c8apply(st *c8state, o c8op, check bool, hist string, r *mc.Recorder) (ok b
 	for _, id := range c8ids {
 		var f codon.Table
 		if p := catch(func() { f = codon.GetCodonTable(id) }); p != "" {
-			fail("no-panic", "a table", p)
+			fail("no-panic", nil, "a table", p)
 			continue
 		}
 		if v := viewOf(f); !viewEq(v, pristineView(id)) {
-			fail("fresh-default-pristine", fmt.Sprintf("GetCodonTable(%d): NCBI assignments, every weight 1", id), v.diff(pristineView(id)))
+			fail("fresh-default-pristine", leakTags(st, id), fmt.Sprintf("GetCodonTable(%d): NCBI assignments, every weight 1", id), v.diff(pristineView(id)))
 		}
 	}
 	return
+}
+
+// leakTags: the failing table is (storage shared with) the default of an id that was re-weighted through a
+// handle obtained from GetCodonTable — the signature of the recorded storage leak, and of nothing else.
+func leakTags(st *c8state, id int) []string {
+	if st.reweighted[id] {
+		return []string{"default-storage-reweighted-through-get-handle"}
+	}
+	return nil
 }
 
 func c8replay(hist []c8op, r *mc.Recorder, checkLast bool) (*c8state, bool) {
@@ -372,7 +383,7 @@ func c8key(st *c8state) string {
 		fmt.Fprintf(&b, "%s|c%d|l%d;", e.s, cls[e.p], lin[e.lin])
 	}
 	b.WriteString(strings.Join(defs, "#"))
-	fmt.Fprintf(&b, "|leak%v", st.leakTag)
+	fmt.Fprintf(&b, "|leak%v", st.reweighted)
 	return b.String()
 }
 
@@ -400,58 +411,83 @@ func c8successors(st *c8state) []c8op {
 	return ops
 }
 
+func c8histString(h []c8op) string {
+	var p []string
+	for _, x := range h {
+		p = append(p, x.String())
+	}
+	return strings.Join(p, "; ")
+}
+
+// c8histories: breadth-first search, split into one unit per history prefix of length 2 so that the
+// subtrees are explored by different worker processes (each with its own visited set).
 func c8histories(tier string) []mc.Unit {
-	depth := tier2(tier, 4, 6)
-	return []mc.Unit{{Name: "histories", Serial: true, Weight: 3000, Run: func(r *mc.Recorder) {
-		r.MaxFailures = 400
-		seen := map[uint64]bool{}
-		frontier := [][]c8op{{}}
-		st0, _ := c8replay(nil, r, false)
-		seen[mc.H(c8key(st0))] = true
-		var states, trans int64 = 1, 0
-		completed := 0
-		sampled := false
-		for d := 1; d <= depth && len(frontier) > 0; d++ {
-			var next [][]c8op
-			for _, hist := range frontier {
-				if r.TimeUp() {
-					r.Cap(fmt.Sprintf("history search stopped by the time budget inside depth %d", d))
-					next = nil
-					frontier = nil
-					break
-				}
-				st, _ := c8replay(hist, r, false)
-				for _, o := range c8successors(st) {
-					nh := append(append([]c8op{}, hist...), o)
-					ns, _ := c8replay(nh, r, true)
-					trans++
-					k := mc.H(c8key(ns))
-					if !seen[k] {
-						seen[k] = true
-						states++
-						next = append(next, nh)
-						if !sampled && d == 3 {
-							var p []string
-							for _, x := range nh {
-								p = append(p, x.String())
+	depth := tier2(tier, 5, 7)
+	var roots [][]c8op
+	st0, _ := c8replay(nil, nil, false)
+	for _, o1 := range c8successors(st0) {
+		st1, _ := c8replay([]c8op{o1}, nil, false)
+		for _, o2 := range c8successors(st1) {
+			roots = append(roots, []c8op{o1, o2})
+		}
+	}
+	var us []mc.Unit
+	for ri, root := range roots {
+		root := root
+		us = append(us, mc.Unit{Name: fmt.Sprintf("histories/root=%d:%s", ri, strings.ReplaceAll(c8histString(root), " ", "")), Serial: true, Weight: 800, Run: func(r *mc.Recorder) {
+			r.MaxFailures = 400
+			seen := map[uint64]bool{}
+			// the root's own steps are judged here too
+			c8replay(root[:1], r, true)
+			rs, _ := c8replay(root, r, true)
+			seen[mc.H(c8key(rs))] = true
+			frontier := [][]c8op{root}
+			var states, trans int64 = 1, 2
+			completed := len(root)
+			sampled := false
+			for d := len(root) + 1; d <= depth && len(frontier) > 0; d++ {
+				var next [][]c8op
+				stopped := false
+				for _, hist := range frontier {
+					if r.TimeUp() {
+						r.Cap(fmt.Sprintf("history search below %q stopped by the time budget inside depth %d", c8histString(root), d))
+						stopped = true
+						break
+					}
+					st, _ := c8replay(hist, r, false)
+					for _, o := range c8successors(st) {
+						nh := append(append([]c8op{}, hist...), o)
+						ns, _ := c8replay(nh, r, true)
+						trans++
+						k := mc.H(c8key(ns))
+						if !seen[k] {
+							seen[k] = true
+							states++
+							next = append(next, nh)
+							if !sampled && d == 4 {
+								r.Sample("history: " + c8histString(nh) + " (value-semantics model compared after every step: result, every other live table, fresh defaults)")
+								sampled = true
 							}
-							r.Sample("history: " + strings.Join(p, "; ") + " (value-semantics model compared after every step: result, every other live table, fresh defaults)")
-							sampled = true
 						}
 					}
 				}
-			}
-			if frontier != nil {
+				if stopped {
+					break
+				}
 				completed = d
+				frontier = next
 			}
-			frontier = next
-		}
-		r.Eval(trans)
-		r.AddStates(states)
-		r.AddTransitions(trans)
-		r.AddNontrivial(trans)
-		r.Bound("histories", fmt.Sprintf("operation sequences over get(1|11), reweight(h, 5 sequences), add, compromise(0.1), json; breadth-first with canonical state hashing; depth %d completed: %d states, %d transitions", completed, states, trans))
-	}}}
+			r.Eval(trans)
+			r.AddStates(states)
+			r.AddTransitions(trans)
+			r.AddNontrivial(trans)
+			r.Bound("histories", fmt.Sprintf("operation sequences over get(1|11), reweight(h, 5 sequences), add, compromise(0.1), json; breadth-first below each of the %d prefixes of length 2, canonical state hashing per subtree; depth %d", len(roots), depth))
+			if completed < depth && len(frontier) > 0 {
+				r.Bound("histories/partial/"+fmt.Sprint(ri), fmt.Sprintf("depth %d completed below %s", completed, c8histString(root)))
+			}
+		}})
+	}
+	return us
 }
 
 // ---------------------------------------------------------------------------
@@ -465,7 +501,7 @@ func c8schedules(tier string) []mc.Unit {
 		seqs  []string
 		bound int
 	}
-	scens := []scen{{"two-tasks", []int{1, 11}, []string{"ATGAAA", "TTTATG"}, tier2(tier, 2, 3)}}
+	scens := []scen{{"two-tasks", []int{1, 11}, []string{"ATGAAA", "TTTATG"}, tier2(tier, 1, 2)}}
 	if tier == "thorough" {
 		scens = append(scens, scen{"three-tasks", []int{1, 2, 11}, []string{"ATGAAA", "TTTATG", "GGGATG"}, 2})
 	} else {
@@ -483,6 +519,11 @@ func c8schedules(tier string) []mc.Unit {
 				letters := make([]string, len(sc.ids))
 				var post []tableView
 				out := sched.Run(c, sched.Options{Horizon: 200000, KeyRunning: true}, func() {
+					// before the concurrent phase: one sequential re-weighting with every sequence, the first task's
+					// sequence last (state a call may have left behind is then in place when the tasks start)
+					for j := len(sc.seqs) - 1; j >= 0; j-- {
+						deepCopyTable(codon.GetCodonTable(sc.ids[j])).OptimizeTable(sc.seqs[j])
+					}
 					var wg sched.WaitGroup
 					for i := range sc.ids {
 						i := i
